@@ -260,6 +260,30 @@ def run_tree(spec):
                     expected.discard(h); res["stats"]["removed"] += 1
             if rng.random() < spec.get("p_add", 0.0) and sim.N < 80:
                 expected.add(add_one()); res["stats"]["added"] += 1
+            # error paths of add while a tree exists: the request must be refused AND leave the simulation unchanged; the history continues
+            # (done near the end of a history, so that an open defect on this path does not hide the rest of the history)
+            if use_tree and step == spec["steps"] - 3 and spec.get("badadd", True) and sim.N > 0:
+                kind_bad = rng.choice(["same_coordinates", "outside_box"])
+                live_idx = [i for i in range(sim.N) if not math.isnan(sim.particles[i].y)]
+                if live_idx:
+                    src = sim.particles[rng.choice(live_idx)]
+                    if kind_bad == "same_coordinates":
+                        bx_, by_, bz_ = src.x, src.y, src.z
+                    else:
+                        bx_, by_, bz_ = src.x, box.box[1] * rng.choice([0.75, -3.2]), src.z
+                    if kind_bad == "same_coordinates" or spec["boundary"] != "none" or True:
+                        n_before = sim.N
+                        raised = None
+                        try:
+                            sim.add(m=1e-9, x=bx_, y=by_, z=bz_, hash=999999)
+                        except RuntimeError as e:
+                            raised = str(e)
+                        res["stats"]["bad_adds"] = res["stats"].get("bad_adds", 0) + 1
+                        if raised is None:
+                            raise Fail("tree:bad_add_accepted", "add of a particle with %s (%r,%r,%r) was not refused" % (kind_bad.replace("_", " "), bx_, by_, bz_))
+                        if sim.N != n_before:
+                            raise Fail("tree:refused_add_changes_N", "sim.add refused a particle (%s: %s) but N went %d -> %d: the rejected particle is in particles[] and in no leaf"
+                                       % (kind_bad.replace("_", " "), raised, n_before, sim.N))
             before = {s[0]: s for s in state(sim)}
             mass_before = math.fsum(s[7] for s in before.values() if not math.isnan(s[2]))
             rb_before = {s[0]: box.rootbox((s[1], s[2], s[3])) for s in before.values() if not math.isnan(s[2]) and in_box(box, (s[1], s[2], s[3]))}
